@@ -410,7 +410,41 @@ func checkC09(r *Run) {
 				if !isCall || errM == nil || c.StaticCalleeOf(&k.Call) != errM || c.Resolve(k.Call.Args[0]) != m.Cli {
 					continue
 				}
-				for _, e := range nilEdges(f, k) {
+				decisions := nilEdges(f, k)
+				// the outcome carried in a flag (`restart = cli.Err() != nil` … `if !restart { return }`): the edge of the test
+				// of the flag on which the comparison says nil
+				for _, b := range f.Blocks {
+					iff := blockIf(b)
+					if iff == nil {
+						continue
+					}
+					cond, neg := iff.Cond, false
+					for {
+						u, isNot := cond.(*ssa.UnOp)
+						if !isNot || u.Op != token.NOT {
+							break
+						}
+						cond, neg = u.X, !neg
+					}
+					phi, isPhi := cond.(*ssa.Phi)
+					if !isPhi {
+						continue
+					}
+					for _, lf := range phiLeaves(phi, map[ssa.Value]bool{}) {
+						bin, isBin := lf.V.(*ssa.BinOp)
+						if !isBin || (bin.Op != token.NEQ && bin.Op != token.EQL) || !isNilConst(bin.Y) || c.Resolve(bin.X) != ssa.Value(k) {
+							continue
+						}
+						// flag true <=> comparison true; comparison true means nil iff it is ==
+						nilWhenTrue := bin.Op == token.EQL
+						kNil := 0
+						if nilWhenTrue == neg {
+							kNil = 1
+						}
+						decisions = append(decisions, ifEdge{b, kNil})
+					}
+				}
+				for _, e := range decisions {
 					// nil edge: returns without redial
 					r2 := ReachableViaEdge(f, ifEdge{e.B, e.K}, PathQ{})
 					redial, returns := false, false
@@ -618,10 +652,73 @@ func (c *Ctx) ruleLoopStopsOnlyOnRequest(rr *RuleRep, m *reconnModel) {
 			}
 		}
 	})
+	// a licence carried in a flag: `restart = cli.Err() != nil` in the connection-ended case, `if !restart { return }` below
+	// the select — the test is of a join; on the path at hand the join holds the comparison, and the edge taken says how it
+	// came out
+	type carried struct {
+		b       *ssa.BasicBlock
+		phi     *ssa.Phi
+		negated bool
+	}
+	var flags []carried
+	for _, b := range f.Blocks {
+		iff := blockIf(b)
+		if iff == nil {
+			continue
+		}
+		cond, neg := iff.Cond, false
+		for {
+			u, ok := cond.(*ssa.UnOp)
+			if !ok || u.Op != token.NOT {
+				break
+			}
+			cond, neg = u.X, !neg
+		}
+		if phi, ok := cond.(*ssa.Phi); ok {
+			flags = append(flags, carried{b, phi, neg})
+		}
+	}
+	ci := corrOf(f)
+	licensedByFlag := func(ret *ssa.Return, dom []ifEdge) bool {
+		if ci.cur == nil {
+			return false
+		}
+		for _, fl := range flags {
+			for _, e := range dom {
+				if e.B != fl.b {
+					continue
+				}
+				phiTrue := (e.K == 0) != fl.negated // the value the flag has on the edge taken
+				bin, ok := ci.leafOn(fl.phi, ci.cur).(*ssa.BinOp)
+				if !ok || (bin.Op != token.NEQ && bin.Op != token.EQL) || !isNilConst(bin.Y) {
+					continue
+				}
+				isNil := phiTrue == (bin.Op == token.EQL) // what the comparison says about its operand on this path
+				if k, isCall := c.Resolve(bin.X).(*ssa.Call); isCall && errM != nil && c.StaticCalleeOf(&k.Call) == errM && isNil {
+					return true // graceful end
+				}
+				if ctxCall(bin.X, "Err") && !isNil {
+					return true // the loop context is done
+				}
+			}
+		}
+		return false
+	}
 	n := 0
 	for _, ret := range returnsOf(f) {
 		n++
-		_, reach := CanReach(f, nil, func(in ssa.Instruction) bool { return in == ssa.Instruction(ret) }, PathQ{BlockEdge: func(b *ssa.BasicBlock, k int) bool { return licensed[ifEdge{b, k}] }})
+		var dom []ifEdge
+		for _, fl := range flags {
+			for k := 0; k < 2; k++ {
+				if DominatedByEdge(f, ret, fl.b, k, PathQ{}) {
+					dom = append(dom, ifEdge{fl.b, k})
+				}
+			}
+		}
+		ret := ret
+		_, reach := CanReach(f, nil, func(in ssa.Instruction) bool {
+			return in == ssa.Instruction(ret) && !licensedByFlag(ret, dom)
+		}, PathQ{BlockEdge: func(b *ssa.BasicBlock, k int) bool { return licensed[ifEdge{b, k}] }})
 		pos := ret.Pos()
 		if !pos.IsValid() {
 			for _, in := range ret.Block().Instrs {
